@@ -10,6 +10,10 @@ mod c_bits;
 #[cfg(kani)]
 mod c_grid;
 #[cfg(kani)]
+mod c_icc;
+#[cfg(kani)]
+mod c_jbr;
+#[cfg(kani)]
 mod c_fb;
 #[cfg(kani)]
 mod c_region;
